@@ -824,6 +824,10 @@ def watcher_scenarios(seed, tier):
          {"op": "resume"}])
     add([T(dirs[3] + "a.toml")])                                       # a modification that leaves the file empty
     add([W(dirs[0] + "b.toml"), T(dirs[2] + "c.toml"), W(dirs[2] + "notes.txt"), T(dirs[0] + "notes.txt"), W(dirs[2] + "c.toml")])
+    # a notification still waiting for a late consumer when the application shuts down
+    for k in (3, 10, 40):
+        add([{"op": "pause"}, W(dirs[k % 4] + "a.toml")] + [{"op": "sleep"}] * k + [{"op": "cancel"}])
+    add([W(dirs[1] + "b.toml"), {"op": "pause"}, W(dirs[1] + "c.toml"), W(dirs[2] + "c.toml")] + [{"op": "sleep"}] * 10 + [{"op": "cancel"}, {"op": "resume"}])
     P = lambda f: {"op": "pwrite", "file": f}
     add([P(dirs[1] + "a.toml")] * 4)                                  # one file edited again and again, each edit noticed before the next
     add([P(dirs[0] + "UPPER.TOML"), {"op": "sleep"}, P(dirs[0] + "UPPER.TOML"), W(dirs[0] + "notes.txt"), P(dirs[0] + "UPPER.TOML")])
@@ -879,7 +883,30 @@ def c19(pid, tier, replay):
     with open(sp, "w") as f:
         json.dump(scs, f)
     t = scr.fresh("watcher") + ".ndjson"
-    run_cmd([h, "watcher", sp, scr.path("watch-trees"), t], timeout=3000)
+    open(t, "w").close()
+    rest = scs
+    for attempt in range(4):
+        # a run-time abort (panic in one of the watcher's goroutines) with HIDI frames on the stack is a verdict for the
+        # scenario that was running: logged as crashed, the remaining scenarios run in a fresh process
+        with open(sp, "w") as f:
+            json.dump(rest, f)
+        part, cur = scr.fresh("watcher-part") + ".ndjson", scr.fresh("watcher-cur") + ".json"
+        r = subprocess.run([h, "watcher", sp, scr.path("watch-trees"), part], stdout=subprocess.PIPE, stderr=subprocess.PIPE, text=True,
+                           timeout=3000, env=dict(os.environ, VERIFH_CUR=cur))
+        done = open(part).read() if os.path.exists(part) else ""
+        with open(t, "a") as o:
+            o.write(done)
+        if r.returncode == 0:
+            break
+        if not (hidi_abort(r.stderr) and os.path.exists(cur)):
+            raise Infra("verifh watcher failed: " + r.stderr[-3000:])
+        d = abort_line(cur, r.stderr)
+        with open(t, "a") as o:
+            o.write(json.dumps(d) + "\n")
+        seen = {json.loads(x)["id"] for x in done.splitlines()} | {d["id"]}
+        rest = [s for s in rest if s["id"] not in seen]
+        if not rest or attempt == 3:
+            break
     out.add(t, vlib.validate_trace(scr, "WatcherHistTrace", t), sample_filter=lambda d: 2 < len(d.get("writes", [])) < 9)
     out.notes.append("%d scenarios: isolated writes and bursts on TOML and non-TOML files in the four directories (one write(2) on an "
                      "O_APPEND descriptor = one inotify event), consumer prompt or paused, cancellation at arbitrary points, files in "
@@ -1034,6 +1061,15 @@ def c17(pid, tier, replay):
                 w.append({"ev": "midiin", "msg": [0x80 + ch, 60, 0] if ch % 2 else [0x90 + ch, 60, 0]})
             far.append(w + [{"ev": "disconnect"}])
         groups.append([{"cfg": d["cfg"], "colors": LED_COLORS, "layout": LED_LAYOUTS[0], "walks": far}])
+        # a configuration with a single mapping: the first mapping is also the last one, both mapping keys are at their end
+        import copy as _copy
+        one_map = _copy.deepcopy(d["cfg"])
+        one_map["maps"] = one_map["maps"][:1]
+        one_map["dMap"] = 1
+        T = lambda k: [{"ev": "press", "k": k}, {"ev": "release", "k": k}]
+        w1 = T("KEY_F12") + T("KEY_F11") + [{"ev": "press", "k": "KEY_A"}] + T("KEY_F12") + T("KEY_F2") + [{"ev": "release", "k": "KEY_A"}] \
+            + T("KEY_F6") + T("KEY_F11") + [{"ev": "disconnect"}]
+        groups.append([{"cfg": one_map, "colors": LED_COLORS, "layout": LED_LAYOUTS[i], "walks": [w1]} for i in (0, 2)])
     def one(g):
         t, _ = run_led(scr, g)
         return t, vlib.validate_trace(scr, "LedTrace", t, xmx="3g")
@@ -1134,7 +1170,11 @@ def lifecycle_batches(seed, tier):
     stress = [{"cfg": cfg, "colors": LED_COLORS, "layout": layout, "nowait": True, "async_midi": True,
                "walks": [walk(rng.randrange(30, 80), rng.choice([0, 2]), sleep_before_disc=rng.choice([0, 3, 300]), dense=True)
                          for _ in range(n)]} for _ in range(2)]
-    return [[b] for b in waited + nowait + stress]
+    # the server answers but does not list this keyboard: the LED goroutine searches for two seconds; disconnect meanwhile
+    search = [{"cfg": cfg, "colors": LED_COLORS, "layout": layout, "nowait": True, "server": mode,
+               "walks": [walk(rng.randrange(0, 6), rng.choice([0, 1]), midi=False, sleep_before_disc=ms) for ms in (0, 40, 300, 700)]}
+              for mode in ("nocontroller", "other")]
+    return [[b] for b in waited + nowait + stress + search]
 
 
 def c16(pid, tier, replay):
@@ -1152,9 +1192,19 @@ def c16(pid, tier, replay):
     def one(g):
         t, _ = run_led(scr, g, tag="life", race=True, extra_env={"GORACE": "halt_on_error=0 log_path=%s" % racelog})
         return t, vlib.validate_trace(scr, "LedTrace", t, xmx="3g")
+    lat = {"max_return_ms": 0, "max_req_after": 0, "disconnects": 0}
     with ThreadPoolExecutor(max_workers=6) as ex:
         for t, r in ex.map(one, groups):
+            with open(t) as f:
+                for line in f:
+                    if '"disconnect"' in line:
+                        d = json.loads(line)
+                        lat["disconnects"] += 1
+                        lat["max_return_ms"] = max(lat["max_return_ms"], d.get("return_ms", 0))
+                        lat["max_req_after"] = max(lat["max_req_after"], d.get("req_after", 0))
             out.add_validation(t, r)
+    out.notes.append("disconnects: %(disconnects)d, slowest return %(max_return_ms)d ms (bound 2000), most requests to the LED server "
+                     "after the end of the stream %(max_req_after)d (bound 50)" % lat)
     # race reports and isolation runs, judged as cases
     extra = casecheck.CaseOutcome(pid, tier, ["C16_"])
     races = parse_race_logs(racelog)
